@@ -32,11 +32,26 @@ using iora::storage::JsonFileStore;
 using iora::storage::KVStore;
 using iora::storage::KVStoreConfig;
 
+namespace c11clk { int64_t nowNs(); }
+// the wall clock iora sees (system_clock lives in the inline namespace std::chrono::_V2)
+std::chrono::system_clock::time_point std::chrono::system_clock::now() noexcept
+{
+  return time_point(std::chrono::duration_cast<duration>(std::chrono::nanoseconds(c11clk::nowNs())));
+}
+
 namespace
 {
 
 // ------------------------------------------------------------------------------------ clock
-constexpr int64_t T0_MS = 2000000000000ll; // every process of a case sees ~this wall clock
+// KVStore reads its expiry clock only through std::chrono::system_clock::now(). The shared clock shim can
+// offset CLOCK_REALTIME but not stop it, so this executable additionally defines system_clock::now() itself
+// (declared, not defined, in <chrono>; the executable's definition pre-empts libstdc++'s) and returns an
+// exact frozen instant. Every process of a case runs at one instant chosen by the harness: the recorded
+// history at T0, each recovery child at its own "time of recovery" R >= T0 (at the crash instant, or just
+// before / exactly at / just after a deadline that occurs in the history, or after all of them). Nothing
+// expires *during* a process, so no eviction 'D' record is ever written behind the harness's back.
+constexpr int64_t T0_MS = 2000000000000ll;
+std::atomic<int64_t> g_frozenNs{0};
 
 int64_t rawRealNs()
 {
@@ -44,11 +59,17 @@ int64_t rawRealNs()
   syscall(SYS_clock_gettime, CLOCK_REALTIME, &ts);
   return int64_t(ts.tv_sec) * 1000000000ll + ts.tv_nsec;
 }
-void freezeClock() { vf::shim::clockPolicy().realOffsetNs.store(T0_MS * 1000000ll - rawRealNs()); }
+void freezeAtMs(int64_t ms)
+{
+  vf::shim::clockPolicy().realOffsetNs.store(ms * 1000000ll - rawRealNs()); // time()/gettimeofday() users agree (roughly)
+  g_frozenNs.store(ms * 1000000ll);
+}
 int64_t shimNowMs()
 {
+  int64_t f = g_frozenNs.load();
+  if (f) return f / 1000000;
   struct timespec ts;
-  clock_gettime(CLOCK_REALTIME, &ts); // the shimmed one: what iora's system_clock sees
+  clock_gettime(CLOCK_REALTIME, &ts); // the shimmed one
   return int64_t(ts.tv_sec) * 1000ll + ts.tv_nsec / 1000000;
 }
 
@@ -141,11 +162,15 @@ bool applyOp(Image &img, const Op &op, size_t nbytes = size_t(-1))
 std::string hx(const std::string &s) { return s.empty() ? std::string("-") : vf::hex(s); }
 std::string unhx(const std::string &s) { return s == "-" ? std::string() : vf::unhex(s); }
 
-void writeTraceFile(const std::string &fn, const Trace &t)
+// deadlines a history attaches to keys: (index of the first file operation of the call, absolute epoch ms)
+using Deadlines = std::vector<std::pair<size_t, int64_t>>;
+
+void writeTraceFile(const std::string &fn, const Trace &t, const Deadlines *dl = nullptr)
 {
   Exempt e;
   FILE *f = fopen(fn.c_str(), "w");
   if (!f) { perror("trace out"); exit(3); }
+  if (dl) for (auto &d : *dl) fprintf(f, "D %zu %" PRId64 "\n", d.first, d.second);
   for (auto &o : t)
     fprintf(f, "O %c %" PRIu64 " %" PRIu64 " %d %s %s %s\n", o.kind, o.tag, o.off, o.flags, hx(o.path).c_str(),
             hx(o.path2).c_str(), hx(o.data).c_str());
@@ -172,6 +197,26 @@ Trace readTraceFile(const std::string &fn)
     t.push_back(std::move(x));
   }
   return t;
+}
+
+Deadlines readDeadlines(const std::string &fn)
+{
+  Exempt e;
+  Deadlines dl;
+  std::string all = vf::readFile(fn);
+  size_t pos = 0;
+  while (pos < all.size())
+  {
+    size_t nl = all.find('\n', pos);
+    if (nl == std::string::npos) nl = all.size();
+    if (all.compare(pos, 2, "D ") == 0)
+    {
+      unsigned long long a = 0; long long b = 0;
+      if (sscanf(all.c_str() + pos, "D %llu %lld", &a, &b) == 2) dl.push_back({size_t(a), int64_t(b)});
+    }
+    pos = nl + 1;
+  }
+  return dl;
 }
 
 // ------------------------------------------------------------------------------ directories
@@ -380,6 +425,21 @@ struct KvRunner : Runner
   }
   static std::vector<uint8_t> bytes(const std::string &s) { return std::vector<uint8_t>(s.begin(), s.end()); }
   int64_t uniq(int j) const { return int64_t(level) * 500 + int64_t(calls.size()) * 5 + j; }
+  // Deadlines: always far from the process's frozen "now" (>= 20000 s) and at least 50 s away from every other
+  // deadline of the case; "short" ones (20050 s + ...) lie before the "long" ones (100000 s + ...), so an
+  // expireAt can both extend and shorten the deadline a key already has.
+  int64_t pickTtl(int j) { return (rng.chance(0.35) ? 20050 : 100000) + 200 * uniq(j); }
+  std::set<std::string> ttlKeys; // keys this runner gave a deadline to (persist/expireAt prefer them)
+  const std::string &pickExpiryKey()
+  {
+    if (!ttlKeys.empty() && rng.chance(0.7))
+    {
+      auto it = ttlKeys.begin();
+      std::advance(it, long(rng.below(ttlKeys.size())));
+      return *it;
+    }
+    return rng.pick(universe);
+  }
 
   // one random API call (a "reopen" is two calls: close, open)
   void step(bool continuation)
@@ -396,7 +456,8 @@ struct KvRunner : Runner
     }
     else if (r < 44)
     {
-      c.kind = "setttl"; c.keys = {key}; c.vals = {mkValue(idx, 0)}; c.ttl = 100000 + 200 * uniq(0);
+      c.kind = "setttl"; c.keys = {key}; c.vals = {mkValue(idx, 0)}; c.ttl = pickTtl(0);
+      ttlKeys.insert(key);
       call(c, [&] { st->set(c.keys[0], bytes(c.vals[0]), std::chrono::seconds(c.ttl)); });
     }
     else if (r < 52)
@@ -412,22 +473,28 @@ struct KvRunner : Runner
         std::string v = mkValue(idx, int(j));
         b[k] = bytes(v); c.keys.push_back(k); c.vals.push_back(v);
       }
-      if (ttl) { c.ttl = 100000 + 200 * uniq(0); call(c, [&] { st->setBatch(b, std::chrono::seconds(c.ttl)); }); }
+      if (ttl)
+      {
+        c.ttl = pickTtl(0);
+        for (auto &k : c.keys) ttlKeys.insert(k);
+        call(c, [&] { st->setBatch(b, std::chrono::seconds(c.ttl)); });
+      }
       else call(c, [&] { st->setBatch(b); });
     }
-    else if (r < 66)
+    else if (r < 63)
     {
       c.kind = "remove"; c.keys = {key};
       call(c, [&] { st->remove(c.keys[0]); });
     }
-    else if (r < 73)
+    else if (r < 72)
     {
-      c.kind = "expireat"; c.keys = {key}; c.when = T0_MS + (100000 + 200 * uniq(0) + 100) * 1000;
+      c.kind = "expireat"; c.keys = {pickExpiryKey()}; c.when = shimNowMs() + (pickTtl(0) + 100) * 1000;
+      ttlKeys.insert(c.keys[0]);
       call(c, [&] { st->expireAt(c.keys[0], std::chrono::system_clock::time_point(std::chrono::milliseconds(c.when))); });
     }
     else if (r < 79)
     {
-      c.kind = "persist"; c.keys = {key};
+      c.kind = "persist"; c.keys = {pickExpiryKey()};
       call(c, [&] { st->persist(c.keys[0]); });
     }
     else if (r < 82)
@@ -615,10 +682,11 @@ int modeRecord(const vf::Args &A)
   const int nops = int(A.u("nops", 20));
   const std::string dir = A.s("dir");
   { Exempt e; mkdir(dir.c_str(), 0700); clearDir(dir); }
-  freezeClock();
+  freezeAtMs(T0_MS);
   armRecording(dir);
 
   std::string meta, calls;
+  Deadlines deadlines;
   KvParams prm;
   if (!js)
   {
@@ -630,6 +698,12 @@ int modeRecord(const vf::Args &A)
     for (int i = 0; i < nops && !R.dead; i++) R.step(false);
     if (R.st) R.close();
     calls = callsJson(R.calls, false);
+    for (auto &c : R.calls)
+    {
+      if (c.threw) continue;
+      if (c.kind == "setttl" || c.kind == "batchttl") deadlines.push_back({c.opStart, c.t0 + c.ttl * 1000});
+      if (c.kind == "expireat") deadlines.push_back({c.opStart, c.when});
+    }
     for (auto &c : R.calls) { O.obs("kv_rec_calls"); O.obs("kv_rec_call_" + c.kind); if (c.threw) O.obs("kv_rec_call_threw"); }
   }
   else
@@ -644,7 +718,7 @@ int modeRecord(const vf::Args &A)
   }
   stopRecording();
   Trace t = takeShimTrace(dir + "/");
-  writeTraceFile(A.s("trace"), t);
+  writeTraceFile(A.s("trace"), t, &deadlines);
 
   // self-check of the machinery: replaying the whole trace must reproduce the directory exactly
   Image img;
@@ -687,6 +761,7 @@ struct ChildCfg
   uint64_t seed = 1, stream = 0;
   int level = 1;
   int contOps = 4;
+  int64_t recoverAtMs = T0_MS; // the child's frozen wall clock
   std::string imgDir, resPath, tracePath; // tracePath empty: do not keep the continuation trace
 };
 
@@ -706,7 +781,7 @@ struct ResFile
 [[noreturn]] void childMain(const ChildCfg &C, const Image &img)
 {
   const double tStart = vf::nowMs();
-  freezeClock();
+  freezeAtMs(C.recoverAtMs);
   armRecording(C.imgDir);
   ResFile R(C.resPath);
   auto openLine = [&](const char *sec, const CallRec &c) {
@@ -924,6 +999,14 @@ int modeJudge(const vf::Args &A)
   // --only k:b[:k2:b2]
   long onlyK = -1, onlyB = -1, onlyK2 = -1, onlyB2 = -1;
   if (A.has("only")) sscanf(A.s("only").c_str(), "%ld:%ld:%ld:%ld", &onlyK, &onlyB, &onlyK2, &onlyB2);
+  const int64_t onlyR = A.has("only-r") ? int64_t(A.u("only-r", 0)) : -1;
+  // time of recovery: besides "at the crash instant" (T0), operation-boundary images are recovered at up to
+  // --tcap instants taken from {D-1 ms, D, D+1 ms : D a deadline the history had attached to a key by then
+  // (also superseded ones)} + {one day after the last}; byte-cut images get one such instant with
+  // probability --tbyte/1000.
+  const size_t tcap = A.u("tcap", 10);
+  const uint64_t tbyte = A.u("tbyte", 333);
+  const Deadlines DL = readDeadlines(A.s("trace"));
 
   Trace T = readTraceFile(A.s("trace"));
   FILE *obs;
@@ -933,21 +1016,24 @@ int modeJudge(const vf::Args &A)
   base.imgDir = dir + "/img";
   base.resPath = dir + "/res.jsonl";
   vf::Rng cutRng(base.seed, hist * 7 + 3);
-  freezeClock();
+  freezeAtMs(T0_MS);
   quietIora();
 
+  uint64_t nTimeVariants = 0;
   uint64_t nImages = 0, nL2 = 0, writesTotal = 0, writesFull = 0, boundaries = 0, skippedSame = 0, byteImages = 0;
   uint64_t nHung = 0; // children killed by the watchdog; after 3 the enumeration of this history stops (each costs a full
                       // watchdog period; the driver re-runs those images in isolation and only a reproduced hang is a verdict)
   const uint64_t maxHung = A.u("max-hung", 3);
   double childMsMax = 0, childMsSum = 0;
 
-  auto judgeImage = [&](const Image &img, size_t k, size_t b) {
+  auto judgeImageAt = [&](const Image &img, size_t k, size_t b, int64_t R) {
     if (onlyK >= 0 && (long(k) != onlyK || long(b) != onlyB)) return;
+    if (onlyR >= 0 && R != onlyR) return;
     if (nHung >= maxHung) return;
     ChildCfg C = base;
     C.level = 1;
-    C.stream = (hist * 100003 + k) * 4099 + b + 11;
+    C.recoverAtMs = R;
+    C.stream = ((hist * 100003 + k) * 4099 + b + 11) ^ (R == T0_MS ? 0 : vf::shim::mix(uint64_t(R)));
     bool wantL2 = levels >= 2 && (onlyK2 >= 0 || (nImages % l2every) == 0);
     C.tracePath = wantL2 ? dir + "/trace2" : "";
     writeImage(C.imgDir, img);
@@ -955,8 +1041,8 @@ int modeJudge(const vf::Args &A)
     nImages++;
     if (r.status == "hung") nHung++;
     childMsSum += r.ms; if (r.ms > childMsMax) childMsMax = r.ms;
-    fprintf(obs, "{\"lvl\":1,\"k\":%zu,\"b\":%zu,\"torn\":%d,\"st\":\"%s\",\"res\":[%s]}\n", k, b, logHasTornTail(img) ? 1 : 0,
-            r.status.c_str(), r.sections.c_str());
+    fprintf(obs, "{\"lvl\":1,\"k\":%zu,\"b\":%zu,\"R\":%" PRId64 ",\"torn\":%d,\"st\":\"%s\",\"res\":[%s]}\n", k, b, R,
+            logHasTornTail(img) ? 1 : 0, r.status.c_str(), r.sections.c_str());
     if (!wantL2 || r.status != "ok") return;
     // second level: crash the continuation of this image
     Trace T2;
@@ -985,6 +1071,7 @@ int modeJudge(const vf::Args &A)
       if (c2.second && c2.first < T2.size()) applyOp(img2, T2[c2.first], c2.second);
       ChildCfg G = base;
       G.level = 2;
+      G.recoverAtMs = R; // the second crash is recovered at the same instant the first recovery ran at
       G.stream = C.stream * 31 + c2.first * 131 + c2.second + 5;
       G.tracePath = "";
       writeImage(G.imgDir, img2);
@@ -992,9 +1079,31 @@ int modeJudge(const vf::Args &A)
       nL2++;
       if (r2.status == "hung") nHung++;
       childMsSum += r2.ms; if (r2.ms > childMsMax) childMsMax = r2.ms;
-      fprintf(obs, "{\"lvl\":2,\"k\":%zu,\"b\":%zu,\"k2\":%zu,\"b2\":%zu,\"torn\":%d,\"st\":\"%s\",\"res\":[%s]}\n", k, b, c2.first, c2.second,
-              logHasTornTail(img2) ? 1 : 0, r2.status.c_str(), r2.sections.c_str());
+      fprintf(obs, "{\"lvl\":2,\"k\":%zu,\"b\":%zu,\"k2\":%zu,\"b2\":%zu,\"R\":%" PRId64 ",\"torn\":%d,\"st\":\"%s\",\"res\":[%s]}\n", k, b,
+              c2.first, c2.second, R, logHasTornTail(img2) ? 1 : 0, r2.status.c_str(), r2.sections.c_str());
       if (nHung >= maxHung) break;
+    }
+  };
+
+  auto judgeImage = [&](const Image &img, size_t k, size_t b) {
+    judgeImageAt(img, k, b, T0_MS);
+    if (base.js) return;
+    // candidate instants from the deadlines of calls that had started by operation k
+    std::set<int64_t> ds;
+    for (auto &d : DL) if (d.first <= k) ds.insert(d.second);
+    if (ds.empty()) return;
+    std::vector<int64_t> cand;
+    for (int64_t d : ds) { cand.push_back(d - 1); cand.push_back(d); cand.push_back(d + 1); }
+    cand.push_back(*ds.rbegin() + 86400000ll);
+    if (onlyR >= 0) { if (onlyR != T0_MS) { nTimeVariants++; judgeImageAt(img, k, b, onlyR); } return; }
+    size_t want = b == 0 ? tcap : (cutRng.below(1000) < tbyte ? 1 : 0);
+    for (size_t i = 0; i < want && !cand.empty(); i++)
+    {
+      size_t j = cutRng.below(cand.size());
+      int64_t R = cand[j];
+      cand.erase(cand.begin() + long(j));
+      nTimeVariants++;
+      judgeImageAt(img, k, b, R);
     }
   };
 
@@ -1024,6 +1133,7 @@ int modeJudge(const vf::Args &A)
   { Exempt e; fclose(obs); clearDir(base.imgDir); rmdir(base.imgDir.c_str()); }
   O.obs(pre + "images_level1", nImages);
   O.obs(pre + "images_level2", nL2);
+  O.obs(pre + "images_recovered_at_a_deadline_instant", nTimeVariants);
   O.obs(pre + "boundary_images", boundaries);
   O.obs(pre + "byte_cut_images", byteImages);
   O.obs(pre + "boundaries_identical_to_previous_image", skippedSame);
@@ -1032,7 +1142,7 @@ int modeJudge(const vf::Args &A)
   O.obsMax(pre + "child_ms_max", uint64_t(childMsMax));
   O.line("{\"t\":\"judge\",\"store\":\"" + std::string(base.js ? "json" : "kv") + "\",\"hist\":" + std::to_string(hist) +
          ",\"ops\":" + std::to_string(T.size()) + ",\"images\":" + std::to_string(nImages) + ",\"images2\":" + std::to_string(nL2) +
-         ",\"boundaries\":" + std::to_string(boundaries) + ",\"byte_images\":" + std::to_string(byteImages) +
+         ",\"time_variants\":" + std::to_string(nTimeVariants) + ",\"boundaries\":" + std::to_string(boundaries) + ",\"byte_images\":" + std::to_string(byteImages) +
          ",\"writes\":" + std::to_string(writesTotal) + ",\"writes_full\":" + std::to_string(writesFull) +
          ",\"hung\":" + std::to_string(nHung) + ",\"stopped_early\":" + (nHung >= maxHung ? "1" : "0") +
          ",\"child_ms_avg\":" + std::to_string(nImages + nL2 ? childMsSum / double(nImages + nL2) : 0.0) + "}");
@@ -1041,6 +1151,15 @@ int modeJudge(const vf::Args &A)
 }
 
 } // namespace
+
+int64_t c11clk::nowNs()
+{
+  int64_t f = g_frozenNs.load(std::memory_order_relaxed);
+  if (f) return f;
+  struct timespec ts;
+  clock_gettime(CLOCK_REALTIME, &ts);
+  return int64_t(ts.tv_sec) * 1000000000ll + ts.tv_nsec;
+}
 
 int main(int argc, char **argv)
 {
